@@ -18,7 +18,10 @@ META = dict(
          "hash.ConsistentHash and records after every operation the node returned for 16 probe keys (twice) and, "
          "over a population of 500-5000 keys, the owner counts and every from->to move; TLC validates each "
          "recorded step against spec/ConsistentHash.tla (total, stable, only the changed node's keys move, "
-         "weight 0 / removed node owns nothing, re-add replaces). The contract itself is model-checked "
+         "weight 0 / removed node owns nothing, re-add replaces, every call returns). A 'drain' family of the generator "
+         "(complete over 2-3 nodes to 4-5 operations, plus seeded 30-operation histories) contains only histories in which "
+         "the ring returns to empty, so that lookups on a drained ring, weight-0 re-adds there and the first live add after "
+         "it are exercised (census in evidence, guarded against vacuity). The contract itself is model-checked "
          "(implementable, invariants, action properties) and a ring mechanism model refines it.",
     note="The hash function is environment: assignment vectors are observed, never predicted. 'Roughly "
          "proportional to weight' is a driver statistic (nodes with >= 50 virtual nodes, flagged beyond a factor 2, "
@@ -32,8 +35,11 @@ META = dict(
          "virtual nodes per full node, ten nodes each added by Add, AddWithWeight(100), AddWithWeight(50), 40 000-100 000 "
          "fixed keys, every class share within +-15 % of the weight-proportional share (deterministic: names and keys are "
          "fixed; weights above 100 left out, the statement is silent about them). BEYOND THE STATEMENT (which does not quantify over concurrency): Get "
-         "concurrent with Add*/Remove runs under -race; only a data-race report or a panic is reported "
-         "(key C13:data-race), never a contract violation. Bounds: 3-4 nodes, weights {0,1,50,100}, replicas {0,50,100,200}, base 100 and 200.",
+         "concurrent with Add*/Remove runs under -race; only a data-race report or a fatal runtime error is reported "
+         "(key C13:data-race), never a contract violation. PANICS: every call of Get/Add*/Remove (and cache/kv New/Set/Get/Del) "
+         "runs under recover() in all drivers; a call that panics is recorded ('PANIC' as the lookup result, field pan) and "
+         "rejected by the contract clause 'panic' (keys C13:panic:get|add|addw|addr|remove|new|set|del; C13:panic:crash when a "
+         "fatal error inside the code under test kills a recorder process). Bounds: 3-4 nodes, weights {0,1,50,100}, replicas {0,50,100,200}, base 100 and 200.",
     technique="TLA+ contract spec + TLC-generated histories + TLC trace validation of the real ring's lookups",
     design="4/C13")
 
@@ -73,9 +79,11 @@ def mc(ctx):
 
 # ------------------------------------------------------------------------------- generate
 
-def gen(ctx, name, nodes, weights, reps, base, maxops, simulate=None):
+def gen(ctx, name, nodes, weights, reps, base, maxops, simulate=None, family="all"):
+    """family 'drain' = only histories in which the ring returns to empty (ConsistentHashGen.tla, Wanted)."""
     K = consts(nodes, weights, reps, base)
     K["MaxOps"] = maxops
+    K["Family"] = '"%s"' % family
     cfg = core.render_cfg(spec="GSpec", constants=K, invariants=["Emit"])
     r = ctx.tlc("ConsistentHashGen", cfg, constants=K, name=name, simulate=simulate,
                 depth=(maxops + 2 if simulate else None), timeout=1200, workers=(1 if simulate else 6))
@@ -105,10 +113,47 @@ def split_traces(prefix):
     return hists
 
 
+UNDER_TEST = ("github.com/gotid/god/lib/hash.", "github.com/gotid/god/lib/lang.", "github.com/gotid/god/lib/store/cache.",
+              "github.com/gotid/god/lib/store/kv.")
+
+
+def crash_of_code_under_test(text):
+    """The drivers run every call of the code under test under recover(), so a recorder process normally
+    survives a panic.  What recover() cannot catch (fatal runtime errors: stack exhaustion, concurrent map
+    access, ...) still kills the process: if the crash report names a frame of the code under test this is
+    a behaviour of that code, not a harness problem.  Returns the excerpt, or None (time-outs, kills and
+    crashes elsewhere stay harness problems)."""
+    if "test timed out" in text:
+        return None
+    for mark in ("fatal error:", "panic:"):
+        i = text.find(mark)
+        if i >= 0 and any(u in text[i:] for u in UNDER_TEST):
+            return text[i:i + 1500]
+    return None
+
+
+def crashed(ctx, label, e):
+    """e: core.Infra raised by ctx.replay.  True = it was a crash of the code under test, now reported."""
+    import glob
+    crash = crash_of_code_under_test(str(e))
+    for lp in sorted(glob.glob(os.path.join(ctx.build, "%s-*.out" % label))):     # the shards' own output
+        crash = crash or crash_of_code_under_test(open(lp, errors="replace").read())
+    if crash is None:
+        return False
+    ctx.disagree("C13:panic:crash", "recorder %s: the process executing the histories was killed by a fatal error "
+                 "inside the code under test (not recoverable by the driver): %s" % (label, crash), case=None, source="record")
+    return True
+
+
 def record(ctx, binp, label, cases_path, base, pop, shards=16, hashfn="", kinds="a"):
     prefix = os.path.join(ctx.build, "trace-" + label)
-    cnt, bad = ctx.replay(PKG, OVERLAY, RUN, cases_path, label=label, binp=binp, shards=shards,
-                          env=dict(VERIF_BASE=base, VERIF_POP=pop, VERIF_TRACE=prefix, VERIF_HASH=hashfn, VERIF_KINDS=kinds), source="record")
+    try:
+        cnt, bad = ctx.replay(PKG, OVERLAY, RUN, cases_path, label=label, binp=binp, shards=shards,
+                              env=dict(VERIF_BASE=base, VERIF_POP=pop, VERIF_TRACE=prefix, VERIF_HASH=hashfn, VERIF_KINDS=kinds), source="record")
+    except core.Infra as e:
+        if not crashed(ctx, label, e):
+            raise
+        return None
     if bad:
         raise core.Infra("C13 recorder reported verdicts (it must only record): %s" % bad[:2])
     return split_traces(prefix)
@@ -199,10 +244,17 @@ def describe(h, k, failed):
     ev = json.loads(h[k])
     step = k - 1
     key = "C13:%s:%s" % ("+".join(failed), ev.get("ev"))
+    pan = ""
+    if "panic" in failed:
+        # a call of the API did not return: the class of the failure is the call that panicked (the other
+        # clauses fail as a consequence: "PANIC" is no node); lookups first, they are what the statement is about
+        ops = list(ev.get("pan") or []) or ["get"]
+        key = "C13:panic:%s" % ("get" if "get" in ops else ops[0])
+        pan = "PANIC in %s: %s; " % (ops, ev.get("panmsg"))
     prior = [json.loads(x) for x in h[1:k]]
-    msg = ("base=%s history #%s step %d %s: observation rejected by the contract, clauses %s; "
+    msg = ("base=%s history #%s step %d %s: %sobservation rejected by the contract, clauses %s; "
            "ops so far %s; observed asg=%s asg2=%s alt=%s altd=%s cnt=%s mv=%s; previous asg=%s") % (
-        reset.get("base"), reset.get("h"), step, {f: ev[f] for f in ("ev", "n", "w", "r") if f in ev}, failed,
+        reset.get("base"), reset.get("h"), step, {f: ev[f] for f in ("ev", "n", "w", "r") if f in ev}, pan, failed,
         [{f: e[f] for f in ("ev", "n", "w", "r") if f in e} for e in prior],
         ev.get("asg"), ev.get("asg2"), ev.get("alt"), ev.get("altd"), ev.get("cnt"), ev.get("mv"),
         prior[-1]["asg"] if prior else "init")
@@ -220,8 +272,8 @@ def shares(ctx, hists, base, acc):
     """Driver statistic (DESIGN section 5): share of the population vs share of the virtual nodes, for
     memberships in which every live node has >= 50 virtual nodes; computed on the last event of a history."""
     for h in hists:
-        if len(h) < 2:
-            continue
+        if len(h) < 2 or any('"pan":[]' not in line for line in h[1:]):
+            continue        # a history with a call that panicked is reported by the contract, it is no statistic
         mem = {}
         e = None
         for line in h[1:]:
@@ -271,8 +323,13 @@ def cluster(ctx):
     cases = [dict(kind=k, weights=w) for k in ("cache", "kv") for w in ws]
     path, cnt = ctx.write_cases("cluster.ndjson", cases)
     prefix = os.path.join(ctx.build, "trace-cluster")
-    c, bad = ctx.replay(PKG2, OVERLAY2, "^TestVerifC13Cluster$", path, label="cluster", shards=2,
-                        env=dict(VERIF_TRACE=prefix, VERIF_POP=(300 if ctx.quick else 1500)), source="record")
+    try:
+        c, bad = ctx.replay(PKG2, OVERLAY2, "^TestVerifC13Cluster$", path, label="cluster", shards=2,
+                            env=dict(VERIF_TRACE=prefix, VERIF_POP=(300 if ctx.quick else 1500)), source="record")
+    except core.Infra as e:
+        if not crashed(ctx, "cluster", e):
+            raise
+        return
     if bad:
         raise core.Infra("C13 cluster recorder reported verdicts (it must only record): %s" % bad[:2])
     hists = split_traces(prefix)
@@ -283,9 +340,21 @@ def cluster(ctx):
 
 # ------------------------------------------------------------------------------- concurrency (beyond the statement)
 
+def panics(ctx, where, pan, source):
+    """pan: {op: {n, msg}} printed by a driver that runs every API call under recover()."""
+    for op, d in sorted((pan or {}).items()):
+        ctx.disagree("C13:panic:%s" % op, "%s: %s panicked %s time(s) instead of returning, first panic value: %s" % (
+            where, dict(get="Get", add="Add", addw="AddWithWeight", addr="AddWithReplicas", remove="Remove").get(op, op),
+            d.get("n"), d.get("msg")), case=None, source=source)
+    return bool(pan)
+
+
 def race(ctx):
     """Lookups concurrent with Add/Remove under the race detector.  The statement does not quantify over
-    concurrency: nothing is compared; only a data-race report or a panic is a finding (key C13:data-race)."""
+    concurrency: no lookup result is compared; a data-race report or a fatal runtime error is a finding
+    (key C13:data-race), and so is an API call that panics (recovered and counted by the driver, key
+    C13:panic:<op>; the main goroutine also looks keys up after every round, every fourth round leaves the
+    ring empty, so these lookups do not depend on scheduling)."""
     rc, out = ctx.go_test(PKG, OVERLAY, "^TestVerifC13Race$", race=True, name="race", timeout=300, extra=["-v"],
                           env=dict(VERIF_ROUNDS=(300 if ctx.quick else 3000)))
     if "DATA RACE" in out or "panic:" in out or "fatal error:" in out:
@@ -294,9 +363,12 @@ def race(ctx):
                      "(beyond the statement: reported as a race/panic, not as a contract violation): " + out[max(0, i - 100):i + 1500],
                      case=None, source="race")
         return
-    if rc != 0 or "C13RACE" not in out:
+    pl = [l for l in out.splitlines() if l.startswith("C13RACEPANIC ")]
+    if rc != 0 or "C13RACE " not in out or not pl:
         raise core.Infra("race driver failed rc=%s\n%s" % (rc, out[-2000:]))
-    ctx.notes["race_run"] = out[out.find("C13RACE"):].split("\n")[0]
+    ctx.notes["race_run"] = out[out.find("C13RACE "):].split("\n")[0]
+    panics(ctx, "Get concurrent with Add/AddWithWeight/AddWithReplicas/Remove on one ring (membership cycles through "
+           "the empty ring every fourth round)", json.loads(pl[0][len("C13RACEPANIC "):]), "race")
 
 
 # ------------------------------------------------------------------------------- class shares (statistical clause)
@@ -320,6 +392,8 @@ def class_shares(ctx):
         if rc != 0 or not line:
             raise core.Infra("share driver failed rc=%s\n%s" % (rc, out[-2000:]))
         m = json.loads(line[0][len("C13SHARE "):])
+        if panics(ctx, "ring with %d virtual nodes per full node, thirty nodes, %d lookups" % (base, m["pop"]), m.get("pan"), "statistic"):
+            continue        # shares of a ring whose calls do not return are not a statistic
         rel = {}
         for k, w in want.items():
             rel[k] = round((m[k] / m["pop"]) / (w / tot), 4)
@@ -336,14 +410,53 @@ def class_shares(ctx):
 
 # ------------------------------------------------------------------------------- run
 
+def eff(o, base):
+    """virtual nodes an operation leaves its node with (ConsistentHash.tla Eff / MemAfter), None = removed"""
+    op = o["op"]
+    if op == "remove":
+        return None
+    if op == "add":
+        return base
+    if op == "addw":
+        return max(0, base * o["w"] // 100)
+    return max(0, min(o["r"], base))
+
+
+def drain_census(cases, base, acc):
+    """Counts, over generated histories, the situations the 'absence only when no node of positive weight is
+    present' clause is about on a ring WITH A PAST (every step is followed by lookups in the driver):
+    drained  steps after which the ring is empty again although it held a live node before,
+    zero     weight-0 / 0-replica adds executed on such a drained ring,
+    revive   adds of positive weight executed on a drained ring."""
+    for c in cases:
+        mem, had_live, was_empty = {}, False, True
+        for o in (json.loads(c) if isinstance(c, str) else c):
+            v = eff(o, base)
+            drained_before = had_live and was_empty
+            if v is None:
+                mem.pop(o["n"], None)
+            else:
+                mem[o["n"]] = v
+                if drained_before:
+                    acc["zero" if v == 0 else "revive"] += 1
+            was_empty = not any(x > 0 for x in mem.values())
+            had_live = had_live or not was_empty
+            if had_live and was_empty:
+                acc["drained"] += 1
+
+
 def run(ctx):
     mc(ctx)
     binp = ctx.go_build(PKG, OVERLAY, name="c13drv")
     W, R = [0, 1, 50, 100], [0, 50, 100, 200]
+    # name[:option][/family]; family "drain" = only histories in which the ring returns to empty (few nodes, so
+    # that long random histories drain again and again)
     if ctx.quick:
         plans = [("g3", ALL_NODES[:3], W, R, 100, 3, None, 500),
                  ("g2b", ALL_NODES, W, R, 200, 2, None, 2000),
                  ("s30", ALL_NODES, W, R, 100, 30, 200, 5000),
+                 ("d4/drain", ALL_NODES[:2], [0, 100], [0, 50], 100, 4, None, 300),
+                 ("ds:kc/drain", ALL_NODES[:2], W, R, 200, 30, 40, 1000),
                  ("f2:fnv", ALL_NODES, W, R, 100, 2, None, 500),
                  ("kb2:kb", ALL_NODES, W, R, 100, 2, None, 500),
                  ("kc2:kc", ALL_NODES, W, R, 200, 2, None, 500),
@@ -354,6 +467,11 @@ def run(ctx):
                  ("g4", ALL_NODES[:3], [0, 100], [0, 50], 100, 4, None, 500),
                  ("s30", ALL_NODES, W, R, 100, 30, 2000, 4000),
                  ("s30b", ALL_NODES, W, R, 200, 30, 500, 4000),
+                 ("d5/drain", ALL_NODES[:2], [0, 100], [0], 100, 5, None, 300),
+                 ("d4b:kb/drain", ALL_NODES[:3], [0, 100], [0, 50], 200, 4, None, 300),
+                 ("ds/drain", ALL_NODES[:2], W, R, 100, 30, 200, 2000),
+                 ("dsc:kc/drain", ALL_NODES[:3], W, R, 200, 30, 200, 2000),
+                 ("dsf:fnv/drain", ALL_NODES[:2], W, R, 100, 30, 200, 1000),
                  ("f3:fnv", ALL_NODES[:3], W, R, 100, 3, None, 500),
                  ("kb3:kb", ALL_NODES, [0, 50, 100], [0, 50, 200], 100, 3, None, 500),
                  ("kc3:kc", ALL_NODES[:3], W, R, 100, 3, None, 500),
@@ -362,16 +480,21 @@ def run(ctx):
                  ("fs30:fnv", ALL_NODES, W, R, 200, 30, 300, 2000)]
     ctx.exhaustive = True
     acc = dict(min=9.9, max=0.0, seen=set())
+    census = dict(drained=0, zero=0, revive=0)
     for name, nodes, w, r, base, maxops, sim, pop in plans:
+        name, _, family = name.partition("/")
         name, _, opt = name.partition(":")      # ":fnv" = caller-supplied hash function, ":kb"/":kc" = other node kinds
         hashfn = "fnv" if opt == "fnv" else ""
         kinds = opt[1:] if opt in ("kb", "kc") else "a"
-        cases = gen(ctx, name, nodes, w, r, base, maxops, simulate=sim)
+        cases = gen(ctx, name, nodes, w, r, base, maxops, simulate=sim, family=family or "all")
         if not cases:
             raise core.Infra("generator %s produced no history" % name)
+        drain_census(cases, base, census)
         path, cnt = ctx.write_cases(name + ".ndjson", cases)
         ctx.samples += core.sample_of(cases, 1)
         hists = record(ctx, binp, name, path, base, pop, hashfn=hashfn, kinds=kinds)
+        if hists is None:       # the recorder was killed by the code under test (reported)
+            continue
         if len(hists) != cnt:
             raise core.Infra("%s: %d histories generated, %d recorded" % (name, cnt, len(hists)))
         validate(ctx, name, hists, tspec(consts(ALL_NODES, w, r, base)), path)
@@ -382,9 +505,17 @@ def run(ctx):
     race(ctx)
     ctx.notes["share_ratio_min_max"] = [round(acc["min"], 3), round(acc["max"], 3)]
     ctx.notes["share_memberships_measured"] = len(acc["seen"])
+    ctx.notes["returns_to_empty_ring"] = census
     ctx.states = sum(t["distinct"] for t in ctx.tlc_runs)
     ctx.transitions = sum(t["generated"] for t in ctx.tlc_runs)
     ctx.assumptions.append("default hash function (murmur3); ring-position collisions between nodes are outside the claim")
+    # vacuity guard (harness problem, so only when the code under test gave no disagreement): the run must have
+    # looked keys up on rings that returned to empty, re-added weight-0 nodes there and revived them
+    if not ctx.disagreements:
+        need = dict(drained=2000, zero=500, revive=500)
+        short = {k: (census[k], v) for k, v in need.items() if census[k] < v}
+        if short:
+            raise core.Infra("vacuous run: too few steps on rings that returned to empty (have, need): %s" % short)
 
 
 def replay(ctx, rp):
@@ -395,4 +526,6 @@ def replay(ctx, rp):
     path, _ = ctx.write_cases("replay.ndjson", [rp["case"]])
     binp = ctx.go_build(PKG, OVERLAY, name="c13drv")
     hists = record(ctx, binp, "replay", path, base, 10000, shards=1)
+    if hists is None:
+        return
     validate(ctx, "replay", hists, tspec(consts(ALL_NODES, [0, 1, 50, 100], [0, 50, 100, 200], base)), path)
